@@ -1203,6 +1203,80 @@ def exit_is_failure(body, x):
     return False
 
 
+CLASS_KEEPING = ('core::result::Result::map_err', 'core::result::Result::map', 'core::option::Option::map', 'core::option::Option::ok_or', 'core::option::Option::ok_or_else',
+                 'core::result::Result::and_then' )
+
+
+def _variant_class(v):
+    if v in SUCCESS:
+        return 'success'
+    if v in FAILURE:
+        return 'failure'
+    return None
+
+
+def value_class_from(body, edge, o, node, depth=0):
+    """on the paths that start at `edge` and reach `node`: is the Result / Option value of operand `o` certainly a
+    success ('success') or certainly a failure ('failure') there?  Evident cases only: an aggregate, a `?` residual
+    conversion, an adapter that keeps success-ness applied to such a value, or a variable all of whose definitions lying
+    between the edge and the node are of one class (and one of them is always passed)."""
+    if o is None or depth > 4 or o.get('k') not in ('copy', 'move'):
+        return None
+    pl = o['pl']
+    if pl['p']:
+        return None
+    l = pl['l']
+    ds = body.whole_defs(l)
+    rs = body.reach_set(edge) | {edge}
+    if len(ds) > 1:
+        cand = [d for d in ds if (('b', d[1]) in rs)]
+        if not cand:
+            return None
+        blocks = {('b', d[1]) for d in cand}
+        if node in body.reach_set(edge, avoid=blocks) and node not in blocks:
+            return None          # some path from the edge reaches the use without passing one of them
+        ds = cand
+    if not ds:
+        return None
+    classes = set()
+    for d in ds:
+        if d[0] == 'call':
+            cs = d[2]
+            if cs.is_(FROM_RESIDUAL):
+                classes.add('failure')
+            elif cs.declared in CLASS_KEEPING and cs.declared != 'core::result::Result::and_then' and cs.args:
+                classes.add(value_class_from(body, edge, cs.args[0], cs.node, depth + 1))
+            else:
+                classes.add(None)
+        else:
+            rv = d[2]['rv']
+            if rv['r'] == 'agg' and 'adt' in rv:
+                classes.add(_variant_class(rv.get('variant')))
+            elif rv['r'] == 'use':
+                classes.add(value_class_from(body, edge, rv['a'][0], ('b', d[1]), depth + 1))
+            else:
+                classes.add(None)
+    if len(classes) == 1:
+        return classes.pop()
+    return None
+
+
+def exit_class_from(body, edge, x):
+    """class of the value an exit returns on the paths from `edge` (see value_class_from)"""
+    if x['kind'] == 'agg':
+        return _variant_class(x['variant'])
+    if x['kind'] == 'call':
+        cs = x['cs']
+        if cs.is_(FROM_RESIDUAL):
+            return 'failure'
+        if cs.declared in CLASS_KEEPING and cs.declared != 'core::result::Result::and_then' and cs.args:
+            return value_class_from(body, edge, cs.args[0], cs.node)
+        return None
+    if x['kind'] == 'copy':
+        return value_class_from(body, edge, x['op'], x['node'])
+    return None
+
+
 def failure_leaves(body, cs, also=()):
     """When `cs` yields its failure variant (Err / None; `also`: further variant names counted as failure) the function
     returns a failure value on every path.  Recognised shapes: the outcome is examined (match, if-let, `?` -- possibly
@@ -1222,7 +1296,7 @@ def failure_leaves(body, cs, also=()):
             for x in exs:
                 if x['node'] in rs or x['node'] == e:
                     n += 1
-                    if not exit_is_failure(body, x):
+                    if not exit_is_failure(body, x) and exit_class_from(body, e, x) != 'failure':
                         bad.append(x)
         return (n > 0 and not bad, 'examined', '%d failure edge(s), %d exits reached, %d not failure exits' % (len(fe), n, len(bad)))
     if oc:
@@ -1254,7 +1328,7 @@ def success_leaves(body, cs):
             for x in exs:
                 if x['node'] in rs or x['node'] == e:
                     n += 1
-                    if not (x['kind'] == 'agg' and x['variant'] in ('Ok', 'Some', 'Continue')):
+                    if not (x['kind'] == 'agg' and x['variant'] in ('Ok', 'Some', 'Continue')) and exit_class_from(body, e, x) != 'success':
                         bad.append(x)
         return (n > 0 and not bad, 'examined', '%d success edge(s), %d exits reached, %d not success exits' % (len(se), n, len(bad)))
     if oc:
@@ -1371,3 +1445,47 @@ def always_passes(body, start, sinks, escapes=()):
     rs = body.reach_set(start, avoid=avoid) | {start}
     leak = [n for n in rs if n[0] == 'b' and body.blocks[n[1]]['term']['t'] == 'return']
     return (not leak, leak)
+
+
+def is_error_of(body, o, callee, _d=0):
+    """operand is the error payload (`Err(e)` / `?` residual) of the awaited result of a call to `callee` - possibly merged
+    from several such calls (two code paths running the same transaction) and possibly wrapped by tracing's
+    `.instrument(span)` - however the variable holding it is named"""
+    alts = sem_alts(body, o)
+    if not alts:
+        return False
+    for a in alts:
+        if a.kind != 'call':
+            return False
+        j = ''.join(a.proj)
+        if ':Err' not in j and '<residual>' not in j:
+            return False
+        cs = a.cs
+        if cs.is_(callee):
+            continue
+        if (cs.callee or '').endswith('Instrument::instrument') and cs.args:
+            inner = sem(body, cs.args[0])
+            if inner.kind == 'call' and inner.cs.is_(callee):
+                continue
+        return False
+    return True
+
+
+def is_result_of(body, o, callee):
+    """operand / place is the (awaited) result value of a call to `callee`, possibly merged from several such calls and
+    possibly wrapped by tracing's `.instrument(span)` - whatever the variable holding it is called"""
+    alts = sem_alts(body, o)
+    if not alts:
+        return False
+    for a in alts:
+        if a.kind != 'call' or a.proj:
+            return False
+        cs = a.cs
+        if cs.is_(callee):
+            continue
+        if (cs.callee or '').endswith('Instrument::instrument') and cs.args:
+            inner = sem(body, cs.args[0])
+            if inner.kind == 'call' and inner.cs.is_(callee):
+                continue
+        return False
+    return True
